@@ -7,7 +7,8 @@ from fv.props import c10
 
 RULE = ("trees of generated programs (both standards; comments dropped / kept / directives processed; cpp + unresolved include "
         "nodes): copy.deepcopy and pickle round trip succeed; str equal; structure equal; the copy satisfies C10's invariants; "
-        "node identity sets disjoint; mutating the copy leaves the original's text unchanged. non-trivial = tree has >= 50 nodes")
+        "node identity sets disjoint; mutating the copy leaves the original's text unchanged. non-trivial = tree has >= 50 nodes"
+        ' Correspondence: on every third program the copy model (Fp.Tree deepcopy over the generated class facts) gives its verdict, canonical form, id-disjointness and parent links for deepcopy and pickle from the root and from one inner node; compared with the real copies.')
 ASSUMPTIONS = ["CPython's copy/pickle protocol (__reduce_ex__(4), copyreg.__newobj__) is modelled by Fp.Tree.deepcopy/pickleRoundTrip"]
 TIE_MODULES = ["FparserModel.Tree", "FparserModel.Generated.Classes2008", "FparserModel.Props.Tree"]
 
@@ -58,6 +59,13 @@ def run_case(case):
         if str(t) != s0:
             res["findings"].append({"signature": how + "-mutation-leaks", "what": "mutating the %s copy changed the original's text" % how,
                                     "replay": {"case": case, "source": src, "how": how}})
+    if case["seed"] % 3 == 0:
+        fs, info = util.tree_cosim(src, std=std, copies=True, case=case, seed=case["seed"])
+        res["findings"] += fs
+        res["counts"]["copy-cosim"] = 1
+        for k, v in info.items():
+            if k.startswith("copy:"):
+                res["counts"]["copy-cosim-" + k[5:]] = v
     return res
 
 
